@@ -216,4 +216,139 @@ theorem erase_sim {caps : TermPen.Caps} {t0 t : GridTerm} {s0 s : XScreen} (h : 
     rw [GT.erasech_col_maybe t n hn (h.oracle _), fc]
     exact hcur.col
 
+/-! ### A print request carrying one printable one-column code point (a CHAR cell) -/
+
+theorem termDecode_end (bs : List UInt8) : ∀ (fuel i : Nat), i ≥ bs.length → GridTerm.termDecode bs fuel i = []
+  | 0, _, _ => rfl
+  | fuel + 1, i, h => by simp [GridTerm.termDecode, h]
+
+/-- The grid terminal decodes the UTF-8 form of a code point as that one character. -/
+theorem termDecode_stdUtf8 (cp : Nat) (h0 : 0 < cp) (h : cp < 0x200000) :
+    GridTerm.termDecode (stdUtf8 cp) ((stdUtf8 cp).length + 1) 0 =
+      [⟨stdUtf8 cp, cp, if Utf8.wcwidth cp < 0 then 1 else Utf8.wcwidth cp⟩] := by
+  have hl := stdUtf8_length_ne cp
+  have hd := nextUtf8_stdUtf8 cp h0 h
+  simp only [GridTerm.termDecode]
+  rw [if_neg (by omega), Nat.sub_zero, hd]
+  simp only [List.drop_zero, List.take_length, Nat.zero_add]
+  rw [termDecode_end _ _ _ (Nat.le_refl _)]
+
+theorem putWide_fit (s : XScreen) (bs : Bytes) (hp : s.pending = false) (hc : s.col + 1 ≤ s.cols) :
+    s.putWide bs 1 =
+      if s.col + 1 ≥ s.cols then
+        { s with
+          cells := fun l c =>
+            if l = s.row ∧ s.col ≤ c ∧ c < s.col + 1 ∧ c < s.cols then
+              { glyph := if c = s.col then .chars bs else .wcont, attrs := s.attrs, writes := (s.cells l c).writes + 1 }
+            else s.cells l c
+          col := s.cols - 1, pending := true, last := some (s.row, s.col) }
+      else
+        { s with
+          cells := fun l c =>
+            if l = s.row ∧ s.col ≤ c ∧ c < s.col + 1 ∧ c < s.cols then
+              { glyph := if c = s.col then .chars bs else .wcont, attrs := s.attrs, writes := (s.cells l c).writes + 1 }
+            else s.cells l c
+          col := s.col + 1, last := some (s.row, s.col) } := by
+  have hn : ¬ (s.pending = true ∨ s.col + 1 > s.cols) := by
+    intro hx
+    rcases hx with hx | hx
+    · rw [hp] at hx; cases hx
+    · omega
+  simp only [XScreen.putWide, hn, if_false]
+
+/-- **char_sim**: the print request of a CHAR cell - the UTF-8 form of a printable code point the library's tables give
+    one column - with the cursor not in the pending-wrap state, read by the VT screen, does what it does on the grid
+    terminal: the cell at the cursor shows the character in the rendition of `tt->pen`, written once more; the cursors
+    advance alike (into the pending-wrap state at the last column). -/
+theorem char_sim {caps : TermPen.Caps} {t0 t : GridTerm} {s0 s : XScreen} (h : Sim caps t0 s0 t s) (hcur : Cur t s)
+    (hnp : t.col < t.cols) (cp : Nat) (hp : Printable cp) (hw : Utf8.wcwidth cp = 1) :
+    Sim caps t0 s0 (t.stepL s.lines (.print (stdUtf8 cp) 0 (stdUtf8 cp).length))
+      (s.interp (reqCalls caps t.pen (.print (stdUtf8 cp) 0 (stdUtf8 cp).length)).flatten) ∧
+    Cur (t.stepL s.lines (.print (stdUtf8 cp) 0 (stdUtf8 cp).length))
+      (s.interp (reqCalls caps t.pen (.print (stdUtf8 cp) 0 (stdUtf8 cp).length)).flatten) ∧
+    (s.interp (reqCalls caps t.pen (.print (stdUtf8 cp) 0 (stdUtf8 cp).length)).flatten).lines = s.lines := by
+  have hl := stdUtf8_length_ne cp
+  have hP := hp
+  obtain ⟨p1, p2, p3⟩ := hp
+  obtain ⟨hpend, hcol, hc0, hc1⟩ : s.pending = false ∧ s.col = t.col ∧ 0 ≤ t.col ∧ t.col < t.cols := by
+    rcases hcur.col with hx | ⟨_, h2, _⟩
+    · exact hx
+    · omega
+  have hcs := h.cols
+  -- the VT screen
+  have es : s.interp (reqCalls caps t.pen (.print (stdUtf8 cp) 0 (stdUtf8 cp).length)).flatten =
+      s.putWide (stdUtf8 cp) 1 := by
+    simp only [reqCalls, if_neg hl, List.drop_zero, List.take_length, call_flatten]
+    rw [XScreen.interp_stdUtf8 s h.ground cp hP]
+    simp [XScreen.putCp, hw]
+  -- the grid terminal
+  have et : t.stepL s.lines (.print (stdUtf8 cp) 0 (stdUtf8 cp).length) = t.putGlyphRaw (stdUtf8 cp) 1 := by
+    have hb : GridTerm.reqBytes t.viaWriteStr (stdUtf8 cp) 0 (stdUtf8 cp).length = stdUtf8 cp := by
+      simp [GridTerm.reqBytes, hl]
+    simp only [GridTerm.stepL, hb, GridTerm.printBytesL, termDecode_stdUtf8 cp (by omega) (by omega), hw,
+      GridTerm.putChsL, List.foldl_cons, List.foldl_nil, GridTerm.putChL, GridTerm.putGlyphL]
+    have hn : ¬ t.col + 1 > t.cols := by omega
+    simp [hn]
+  rw [es, et, putWide_fit s _ hpend (by omega)]
+  have hcells : ∀ l c,
+      (((t.putGlyphRaw (stdUtf8 cp) 1).cells l c = t0.cells l c ∧
+        (if l = s.row ∧ s.col ≤ c ∧ c < s.col + 1 ∧ c < s.cols then
+          ({ glyph := if c = s.col then .chars (stdUtf8 cp) else .wcont, attrs := s.attrs,
+             writes := (s.cells l c).writes + 1 } : XCell)
+         else s.cells l c) = s0.cells l c) ∨
+       Written caps (t0.cells l c) ((t.putGlyphRaw (stdUtf8 cp) 1).cells l c)
+        (if l = s.row ∧ s.col ≤ c ∧ c < s.col + 1 ∧ c < s.cols then
+          ({ glyph := if c = s.col then .chars (stdUtf8 cp) else .wcont, attrs := s.attrs,
+             writes := (s.cells l c).writes + 1 } : XCell)
+         else s.cells l c)) ∧
+      (if l = s.row ∧ s.col ≤ c ∧ c < s.col + 1 ∧ c < s.cols then
+          ({ glyph := if c = s.col then .chars (stdUtf8 cp) else .wcont, attrs := s.attrs,
+             writes := (s.cells l c).writes + 1 } : XCell)
+         else s.cells l c).writes = ((t.putGlyphRaw (stdUtf8 cp) 1).cells l c).writes := by
+    intro l c
+    have hg : (t.putGlyphRaw (stdUtf8 cp) 1).cells l c =
+        if l = t.line ∧ t.col ≤ c ∧ c < t.col + 1 then
+          { glyph := if c = t.col then .chars (stdUtf8 cp) else .wcont, pen := t.pen, writes := (t.cells l c).writes + 1 }
+        else t.cells l c := rfl
+    rw [hg]
+    by_cases hin : l = t.line ∧ t.col ≤ c ∧ c < t.col + 1
+    · have hin2 : l = s.row ∧ s.col ≤ c ∧ c < s.col + 1 ∧ c < s.cols := by
+        rw [hcur.row, hcol, hcs]; exact ⟨hin.1, hin.2.1, hin.2.2, by omega⟩
+      have hceq : c = t.col := by omega
+      rw [if_pos hin, if_pos hin2]
+      refine ⟨Or.inr ⟨Nat.lt_succ_of_le (h.mono l c), ?_, ?_⟩, by simp [h.writes l c]⟩
+      · simp [hceq, hcol]
+      · simp [hceq, h.attrs]
+    · have hin2 : ¬ (l = s.row ∧ s.col ≤ c ∧ c < s.col + 1 ∧ c < s.cols) := by
+        rw [hcur.row, hcol]; intro hx; exact hin ⟨hx.1, hx.2.1, hx.2.2.1⟩
+      rw [if_neg hin, if_neg hin2]
+      exact ⟨h.cells l c, h.writes l c⟩
+  have hri := hcur.rowIn
+  have hrow := hcur.row
+  by_cases hedge : s.col + 1 ≥ s.cols
+  · rw [if_pos hedge]
+    refine ⟨?_, ?_, rfl⟩
+    · exact { lines := h.lines, cols := h.cols, cols_pos := h.cols_pos, ground := h.ground, attrs := h.attrs, enc := h.enc,
+              oracle := h.oracle, writes := fun l c => (hcells l c).2, cells := fun l c => (hcells l c).1 }
+    · refine { row := hrow, rowIn := hri, col := Or.inr ⟨rfl, ?_, ?_⟩, last := ?_ }
+      · show t.col + 1 = t.cols
+        omega
+      · show s.cols - 1 = t.cols - 1
+        omega
+      · show some (s.row, s.col) = some (t.line, t.col)
+        rw [hrow, hcol]
+  · rw [if_neg hedge]
+    refine ⟨?_, ?_, rfl⟩
+    · exact { lines := h.lines, cols := h.cols, cols_pos := h.cols_pos, ground := h.ground, attrs := h.attrs, enc := h.enc,
+              oracle := h.oracle, writes := fun l c => (hcells l c).2, cells := fun l c => (hcells l c).1 }
+    · refine { row := hrow, rowIn := hri, col := Or.inl ⟨hpend, ?_, ?_, ?_⟩, last := ?_ }
+      · show s.col + 1 = t.col + 1
+        omega
+      · show 0 ≤ t.col + 1
+        omega
+      · show t.col + 1 < t.cols
+        omega
+      · show some (s.row, s.col) = some (t.line, t.col)
+        rw [hrow, hcol]
+
 end Tickit.RBFlushX
